@@ -322,4 +322,18 @@ theorem weight_triangle : ∀ (a v b : List Nat), a.length = v.length → v.leng
           · rw [List.filter_cons_of_pos (by simpa using hh)]; simp
         simp only [List.length_cons]; omega
 
+theorem weight_append (a b : List Nat) : weight (a ++ b) = weight a + weight b := by
+  unfold weight; rw [List.filter_append, List.length_append]
+
+theorem weight_le_length (a : List Nat) : weight a ≤ a.length := List.length_filter_le _ _
+
+theorem weight_zipWith_self : ∀ (d : List Nat), weight (List.zipWith (· ^^^ ·) d d) = 0
+  | [] => rfl
+  | a :: as => by
+    have ih := weight_zipWith_self as
+    unfold weight at *
+    simp only [List.zipWith_cons_cons, Nat.xor_self]
+    rw [List.filter_cons_of_neg (by simp)]
+    exact ih
+
 end Gzx.Proofs.MinDist
